@@ -283,6 +283,9 @@ pub enum Distinct {
 }
 
 fn eval(data: &[u8], st: &mut Stats, distinct: Distinct, origin: &str) {
+    if origin == "whitespace-then-run-inside-sequence" && crate::tiny_skip(8) {
+        return;
+    }
     st.eval();
     if is_nontrivial(data) {
         match distinct {
